@@ -38,7 +38,7 @@ pub fn sweep_cases(base: u64, index: u64, st: &mut GenStats) -> (Val, Vec<Case>)
     for tr in [Tr::Display, Tr::LowerExp, Tr::UpperExp] {
         for plus in [false, true] {
             for prec in [None, Some(0usize), Some(1), Some(17), Some(40), Some(300)] {
-                let base_case = FmtCase { hi, lo, tr, plus, prec, sink: SinkPlan::default(), io: None };
+                let base_case = FmtCase { hi, lo, tr, plus, prec, sink: SinkPlan::default(), io: None, flags: None };
                 let (nchunks, nbytes) = match guarded(|| fmtleg::render_ideal(&x, &base_case)) {
                     Ok((_, text, n)) => (n, text.len()),
                     Err(_) => (1, 1),
@@ -75,7 +75,7 @@ pub fn sweep_cases(base: u64, index: u64, st: &mut GenStats) -> (Val, Vec<Case>)
     for tr in [Tr::Display, Tr::LowerExp, Tr::UpperExp] {
         for plus in [false, true] {
             for p in (0usize..=64).chain([100, 127, 128, 255, 256, 257, 511, 512, 1000, 1100]) {
-                out.push(Case::Fmt(FmtCase { hi, lo, tr, plus, prec: Some(p), sink: SinkPlan::default(), io: None }));
+                out.push(Case::Fmt(FmtCase { hi, lo, tr, plus, prec: Some(p), sink: SinkPlan::default(), io: None, flags: None }));
             }
         }
     }
